@@ -352,6 +352,46 @@ func gen(tier string, rng *h.Rng, emit func(string)) {
 			}
 		}
 	}
+	// 2b. exactly t honest members; a Byzantine member sends a share that cannot verify but carries the index
+	//     of an honest member whose genuine share is needed (junk, or another member's share relabelled):
+	//     every victim, every arrival position. The genuine share must still count.
+	nrMax := 7
+	for n := 3; n <= nrMax; n++ {
+		t := n/2 + 1
+		sub := rng.Intn(n)
+		var byz, honest []int // honest = the t-1 honest members besides the submitter
+		for j := 1; j < n; j++ {
+			m := (sub + j) % n
+			if len(byz) < n-t {
+				byz = append(byz, m)
+			} else {
+				honest = append(honest, m)
+			}
+		}
+		if len(byz) == 0 {
+			continue
+		}
+		for vi, victim := range honest {
+			b := newBuild(rng, kinds[(n+vi)%3], n, sub, fl, byz)
+			fl++
+			alts := b.alts(byz[0])
+			if alts == nil {
+				continue
+			}
+			var hs []string
+			for _, j := range honest {
+				hs = append(hs, fmt.Sprintf("h%d", j))
+			}
+			base := append([]string{"S"}, shuffled(rng, hs)...)
+			for pos := 0; pos <= len(base); pos++ {
+				tok := fmt.Sprintf("m1.0.J%d", victim)
+				if (pos+vi)%2 == 1 {
+					tok = fmt.Sprintf("m1.0.R%d.%d", victim, byz[0])
+				}
+				emit(b.line(alts, insertAt(base, pos, tok)))
+			}
+		}
+	}
 	// 3. shares sent to a non-submitter; Byzantine submitter
 	for n := 3; n <= 5; n++ {
 		sub := rng.Intn(n)
